@@ -1794,6 +1794,9 @@ const Ref& reference(const std::string& schema, long outv, long argv_v = 0)
             bool found = false;
             for(auto& kv : first)
             {
+                // ... below the directory the command line names, as the file system resolves that name
+                // (a ".." behind a symbolic link is the parent of the link's target)
+                if(kv.first.rfind(out_root_abs(outv) + "/", 0) != 0) continue;
                 const std::string a = "/" + ex.first + "/" + ex.second + ".hpp", b = "/" + ex.first + "/" + ex.second + "_.hpp";
                 auto ends = [&](const std::string& suf) { return kv.first.size() >= suf.size() && kv.first.compare(kv.first.size() - suf.size(), suf.size(), suf) == 0; };
                 if(ends(a) || ends(b))
@@ -1806,7 +1809,7 @@ const Ref& reference(const std::string& schema, long outv, long argv_v = 0)
             {
                 r.ok = false;
                 r.missing = true;
-                r.why = "fault-free run exited 0 but wrote no " + ex.first + "/" + ex.second + ".hpp although the schema defines it";
+                r.why = "fault-free run exited 0 but wrote no " + ex.first + "/" + ex.second + ".hpp below " + out_root_abs(outv) + " (the directory --output-dir names) although the schema defines it";
                 break;
             }
         }
